@@ -24,7 +24,10 @@ def report(ctx, prop, verdicts, what):
 
 def restrict(ctx, recs):
     if ctx.only is not None:
-        return [r for r in recs if r["key"] == ctx.only["key"]]
+        sel = [r for r in recs if r["key"] == ctx.only["key"]]
+        if not sel:
+            ctx.note("replay: the case %s was not regenerated (different tier / seed / tree?)" % ctx.only.get("key"))
+        return sel
     return recs
 
 
@@ -32,7 +35,7 @@ class Engine:
     LEVEL = "model_checking"
 
     def run(self, ctx):
-        thorough = ctx.tier == "thorough"
+        thorough = (ctx.only.get("tier", ctx.tier) if ctx.only else ctx.tier) == "thorough"
         ctx.rule("every concrete instruction class of ppci.arch.riscv (isa, rvcisa) x {each register slot swept over "
                  "x0..x31, diagonal, every in-range boundary immediate / displacement enumerated by TLC from "
                  "RV32.FieldRange, symbol addresses for %hi/%lo forms}; bytes = encode() (+ own relocation applied; "
